@@ -66,6 +66,8 @@ var primTypes = map[string]reflect.Type{
 	"u32": reflect.TypeOf(uint32(0)), "u64": reflect.TypeOf(uint64(0)),
 	"i8": reflect.TypeOf(int8(0)), "i16": reflect.TypeOf(int16(0)),
 	"i32": reflect.TypeOf(int32(0)), "i64": reflect.TypeOf(int64(0)),
+	// floats travel as their IEEE bit patterns (decimal): nothing compares or prints a float
+	"f32": reflect.TypeOf(float32(0)), "f64": reflect.TypeOf(float64(0)),
 }
 
 func parseTy(toks []string) (reflect.Type, []string, error) {
@@ -141,6 +143,20 @@ func fill(v reflect.Value, leaves []string) ([]string, error) {
 		}
 		v.SetInt(i)
 		return leaves[1:], nil
+	case reflect.Float32, reflect.Float64:
+		if len(leaves) == 0 {
+			return nil, fmt.Errorf("value: out of leaves")
+		}
+		u, err := strconv.ParseUint(leaves[0], 10, v.Type().Bits())
+		if err != nil {
+			return nil, err
+		}
+		if v.Kind() == reflect.Float32 {
+			v.SetFloat(float64(math.Float32frombits(uint32(u))))
+		} else {
+			v.SetFloat(math.Float64frombits(u))
+		}
+		return leaves[1:], nil
 	case reflect.Array:
 		var err error
 		for i := 0; i < v.Len(); i++ {
@@ -169,6 +185,10 @@ func flatten(v reflect.Value, out []string) []string {
 		return append(out, strconv.FormatUint(v.Uint(), 10))
 	case reflect.Int8, reflect.Int16, reflect.Int32, reflect.Int64:
 		return append(out, strconv.FormatInt(v.Int(), 10))
+	case reflect.Float32:
+		return append(out, strconv.FormatUint(uint64(math.Float32bits(float32(v.Float()))), 10))
+	case reflect.Float64:
+		return append(out, strconv.FormatUint(math.Float64bits(v.Float()), 10))
 	case reflect.Array:
 		for i := 0; i < v.Len(); i++ {
 			out = flatten(v.Index(i), out)
@@ -434,6 +454,10 @@ func OracleTyped(v reflect.Value, big bool, out []byte) []byte {
 		put(v.Uint(), v.Type().Bits()/8)
 	case reflect.Int8, reflect.Int16, reflect.Int32, reflect.Int64:
 		put(uint64(v.Int()), v.Type().Bits()/8) // two's complement, truncated by put
+	case reflect.Float32:
+		put(uint64(math.Float32bits(float32(v.Float()))), 4)
+	case reflect.Float64:
+		put(math.Float64bits(v.Float()), 8)
 	case reflect.Array:
 		for i := 0; i < v.Len(); i++ {
 			out = OracleTyped(v.Index(i), big, out)
@@ -532,7 +556,7 @@ func boundaries(w int) []uint64 {
 	return out
 }
 
-var typeLeaves = []string{"u8", "u16", "u32", "u64", "i8", "i16", "i32", "i64", "nu8", "ni16", "nu32", "ni64"}
+var typeLeaves = []string{"u8", "u16", "u32", "u64", "i8", "i16", "i32", "i64", "nu8", "ni16", "nu32", "ni64", "f32", "f64"}
 
 // RandType returns a random fixed-size type term of bounded depth and its number of leaves.
 func RandType(r interface{ Intn(int) int }, depth int) (string, int) {
@@ -592,6 +616,23 @@ func RandLeaves(r interface {
 			b := v.Type().Bits()
 			sh := uint(64 - b)
 			v.SetInt(int64(pick(b)<<sh) >> sh)
+		case reflect.Float32, reflect.Float64:
+			// any bit pattern but NaNs (a NaN payload may change in float32 <-> float64 conversions):
+			// +0, -0 (= the pattern "min of the signed kind"), denormals, infinities, finite values
+			b := v.Type().Bits()
+			u := pick(b)
+			if b == 32 {
+				u &= 1<<32 - 1
+				if u&0x7f800000 == 0x7f800000 && u&0x007fffff != 0 {
+					u &^= 0x00800000
+				}
+				v.SetFloat(float64(math.Float32frombits(uint32(u))))
+			} else {
+				if u&(0x7ff<<52) == 0x7ff<<52 && u&(1<<52-1) != 0 {
+					u &^= 1 << 52
+				}
+				v.SetFloat(math.Float64frombits(u))
+			}
 		case reflect.Array:
 			for i := 0; i < v.Len(); i++ {
 				walk(v.Index(i))
